@@ -265,9 +265,31 @@ fn gen_c16<W: Write>(r: &mut Rng, thorough: bool, out: &mut W) {
                 let rc = r.below(2);
                 writeln!(out, "iter w={w} k={k} rc={rc} seq={}", s(&sq)).unwrap();
                 writeln!(out, "hash w={w} k={k} rc={rc} seq={}", s(&sq)).unwrap();
+                // the same slide with base qualities: each of the three rules, thresholds hit exactly
+                writeln!(out, "iter w={w} k={k} rc={rc} seq={} {}", s(&sq), qual_args(r, sq.len(), k)).unwrap();
             }
         }
     }
+}
+
+/// ` qual=.. mq=.. qf=..` for a read of `len` bases: mostly high qualities with a few bases below or
+/// exactly on the threshold, at the start, at the end, in the middle of a window and at offsets >= k
+pub fn qual_args(r: &mut Rng, len: usize, k: usize) -> String {
+    let mq = *r.pick(&[10usize, 20, 21, 30]);
+    let letter = |q: usize| (33 + q) as u8;
+    let mut q: Vec<u8> = (0..len).map(|_| letter(*r.pick(&[40usize, 40, 40, 35, 31]))).collect();
+    if len > 0 {
+        for _ in 0..r.below(4) {
+            let p = match r.below(5) {
+                0 => r.below(usize::min(len, k)),
+                1 => len - 1 - r.below(usize::min(len, k)),
+                2 if len > k => k + r.below(len - k),
+                _ => r.below(len),
+            };
+            q[p] = letter(*r.pick(&[2usize, mq - 1, mq - 1, mq]));
+        }
+    }
+    format!("qual={} mq={mq} qf={}", String::from_utf8(q).unwrap(), r.pick(&["middle", "middle", "strict", "none"]))
 }
 
 fn gen_c01<W: Write>(r: &mut Rng, thorough: bool, out: &mut W) {
@@ -278,6 +300,9 @@ fn gen_c01<W: Write>(r: &mut Rng, thorough: bool, out: &mut W) {
             let rc = r.below(2);
             let sq = tricky_seq(r, k);
             writeln!(out, "iter w={w} k={k} rc={rc} seq={}", s(&sq)).unwrap();
+            if r.chance(1, 2) {
+                writeln!(out, "iter w={w} k={k} rc={rc} seq={} {}", s(&sq), qual_args(r, sq.len(), k)).unwrap();
+            }
             let nrec = 1 + r.below(4);
             let mut recs: Vec<String> = Vec::new();
             for _ in 0..nrec {
@@ -329,13 +354,18 @@ const AMBIG: [u8; 11] = [b'R', b'Y', b'S', b'W', b'K', b'M', b'B', b'D', b'H', b
 pub fn pack(s_: &[u8]) -> u128 {
     let mut v: u128 = 0;
     for b in s_ {
-        let c = match b.to_ascii_uppercase() {
-            b'A' => 0,
-            b'C' => 1,
-            b'T' => 2,
-            _ => 3,
-        };
+        // as `encode_base`: defined for every byte (an ambiguity code is packed as some base)
+        let c = ((b >> 1) & 3) as u128;
         v = (v << 2) | c;
+    }
+    v
+}
+
+/// packed reverse complement as the code computes it: on the two-bit codes, not on letters
+pub fn pack_rc(s_: &[u8]) -> u128 {
+    let mut v: u128 = 0;
+    for b in s_.iter().rev() {
+        v = (v << 2) | ((((b >> 1) & 3) ^ 2) as u128);
     }
     v
 }
@@ -470,14 +500,25 @@ pub fn gen_hist<W: Write>(prop: &str, r: &mut Rng, thorough: bool, out: &mut W) 
         (_, true) => 5000,
     };
     for round in 0..rounds {
-        let (k, w) = pick_k(r);
+        let (mut k, mut w) = pick_k(r);
+        // the first table (thorough: the first two) of the align and distance families is large, so that
+        // anything done per block of rows (1024, 4096, ...) runs over several blocks, constant rows included
+        let big = matches!(prop, "C06" | "C14") && (round == 0 || (thorough && round == 1));
+        while big && k < 13 {
+            (k, w) = pick_k(r);
+        }
         let rc = r.below(2) == 1;
         let nsamp = match prop {
+            _ if big => 3 + r.below(2),
             "C14" => 2 + r.below(11),
             "C06" => 1 + r.below(12),
             _ => 2 + r.below(7),
         };
-        let nrows = r.below(14);
+        let nrows = match (big, prop) {
+            (true, "C14") => 9000 * (1 + round),
+            (true, _) => 2300 * (1 + round),
+            _ => r.below(14),
+        };
         let amb = match prop {
             "C14" => if r.chance(1, 4) { 100 } else { 0 },
             _ => *r.pick(&[0usize, 50, 150, 400]),
@@ -617,6 +658,8 @@ pub fn gen_hist<W: Write>(prop: &str, r: &mut Rng, thorough: bool, out: &mut W) 
                         if d.is_empty() || d.len() == ns {
                             d = vec![names[0].clone()];
                         }
+                        // the order in which names are given is not the order of the columns
+                        r.shuffle(&mut d);
                         format!("delete/{}", d.join("+"))
                     }
                     _ => format!("weed/~/0/{}/0/nofilter/0/0", 1 + r.below(ns)),
@@ -654,9 +697,14 @@ pub fn gen_hist<W: Write>(prop: &str, r: &mut Rng, thorough: bool, out: &mut W) 
                         }
                         2 => {
                             if names.len() >= 2 {
-                                let i = r.below(names.len());
-                                let nm = names.remove(i);
-                                ops.push(format!("delete/{nm}"));
+                                // one to three names, given in any order
+                                let nd = usize::min(names.len() - 1, 1 + r.below(3));
+                                let mut del: Vec<String> = Vec::new();
+                                for _ in 0..nd {
+                                    let i = r.below(names.len());
+                                    del.push(names.remove(i));
+                                }
+                                ops.push(format!("delete/{}", del.join("+")));
                             }
                         }
                         3 | 4 => {
@@ -724,6 +772,22 @@ fn gen_reference(r: &mut Rng, k: usize) -> Vec<Vec<u8>> {
         let l = 3 * k + r.below(2 * k);
         contigs.push(rand_acgt(r, l));
     }
+    // ambiguity codes in the reference (packed like any base, reported as N in a VCF): before the
+    // repeats are planted, so that a copy can carry one, or after
+    let iupac_first = r.chance(1, 2);
+    let plant_iupac = |r: &mut Rng, contigs: &mut Vec<Vec<u8>>| {
+        for c in contigs.iter_mut() {
+            if c.len() >= k && r.chance(1, 3) {
+                for _ in 0..(1 + r.below(2)) {
+                    let p = r.below(c.len());
+                    c[p] = *r.pick(b"RYSWKMBDHVU");
+                }
+            }
+        }
+    };
+    if iupac_first {
+        plant_iupac(r, &mut contigs);
+    }
     // planted repeats: copy a window (maybe reverse-complemented, maybe with another middle base)
     let nrep = r.below(3);
     for _ in 0..nrep {
@@ -746,6 +810,9 @@ fn gen_reference(r: &mut Rng, k: usize) -> Vec<Vec<u8>> {
             let dp = r.below(contigs[di].len() - span + 1);
             contigs[di][dp..dp + span].copy_from_slice(&w);
         }
+    }
+    if !iupac_first {
+        plant_iupac(r, &mut contigs);
     }
     // N runs and case
     for c in contigs.iter_mut() {
@@ -854,21 +921,23 @@ pub fn gen_map<W: Write>(r: &mut Rng, thorough: bool, out: &mut W) {
                     arms.extend_from_slice(&win[h + 1..]);
                     let mut key = pack(&arms);
                     if rc == 1 {
-                        key = u128::min(key, pack(&revcomp(&arms)));
+                        key = u128::min(key, pack_rc(&arms));
                     }
                     if seen.contains(&key) {
                         continue;
                     }
                     seen.push(key);
+                    let coded_mid = !b"ACGT".contains(&win[h].to_ascii_uppercase());
                     let mut cells: Vec<u8> = (0..nsamp)
                         .map(|_| match r.below(10) {
                             0 | 1 => b'-',
                             2 => *r.pick(&AMBIG),
+                            3 | 4 | 5 | 6 if coded_mid => *r.pick(&AMBIG),
                             _ => *r.pick(&CODE_ORDER),
                         })
                         .collect();
                     if cells.iter().all(|x| *x == b'-') {
-                        cells[0] = b'A';
+                        cells[0] = if coded_mid { b'Y' } else { b'A' };
                     }
                     rows.push(format!("{}:{}", key, String::from_utf8(cells).unwrap()));
                 }
@@ -1191,13 +1260,15 @@ fn gen_c15<W: Write>(r: &mut Rng, thorough: bool, out: &mut W) {
         }
         writeln!(
             out,
-            "hist w={w} k={k} rc={} start={}|{} ops=~ obs=dist/0/0;dist/0/1;dist/{}/0;dist/{}/1;rawdist/{}",
+            "hist w={w} k={k} rc={} start={}|{} ops=~ obs=dist/0/0;dist/0/1;dist/{}/0;dist/{}/1;rawdist/{};{}",
             rc as u8,
             names.join(","),
             rows.join(","),
             1 + r.below(nsamp),
             1 + r.below(nsamp),
-            r.below(3)
+            r.below(3),
+            // what counts as ambiguous, seen through the alignment: every site filter with the mask on
+            FTS.iter().map(|ft| format!("align/0/{ft}/1/{}/{}", r.below(2), r.below(2))).collect::<Vec<_>>().join(";")
         )
         .unwrap();
     }
